@@ -16,10 +16,17 @@ pub mod request {
     use super::utils;
     verus!{
 //@EXTRACT src/request.rs :: enum RequestType
+//@ ATTR #[derive(PartialEq, Eq)]
 //@END
 
 //@EXTRACT src/request.rs :: struct Request
 //@END
+
+    // T: #[derive(PartialEq)] on a field-less enum is structural equality
+    impl vstd::std_specs::cmp::PartialEqSpecImpl for RequestType {
+        open spec fn obeys_eq_spec() -> bool { true }
+        open spec fn eq_spec(&self, other: &Self) -> bool { *self == *other }
+    }
     }
 }
 
